@@ -41,7 +41,7 @@ RULE = ("in-process monitor around the real Lexer and Parser::parse_root: lexer 
         "[0,len) exactly once in order; every inner node spans exactly its contiguous children. Exhaustive over all strings "
         "up to the stated length over the 48-symbol alphabet (and 24 class representatives one symbol longer), plus random "
         "longer strings, 30% of them pumped (prefix + pattern^k + middle + closing^k + suffix, patterns of 1-5 symbols or call/number/unit fragments, "
-        "up to hundreds of repetitions). UTF-8 encoding classes: a second alphabet with the lowest and the highest code point of every possible leading byte "
+        "up to hundreds of repetitions). Inputs with ONE token of 2^8 .. 2^17 (+-1) bytes of each kind, alone and inside an expression. UTF-8 encoding classes: a second alphabet with the lowest and the highest code point of every possible leading byte "
         "0xC2..0xF4 (102 characters) plus ten ASCII symbols, exhaustive up to length 2 (3 in the thorough tier) and in random/pumped strings. Every fourth input is preceded, on the same thread, by str::parse::<Compound>, str::parse::<Rational> "
         "and Parser::parse_unit of the previous input (nothing may leak from one parse into the next). non-trivial = distinct (token-kind sequence, tree shape) classes observed - counted by hash inside the monitor")
 
@@ -67,6 +67,7 @@ def run(tier, seed):
         plans.append(("dbg", ALPHABET_ENC, [1, 2], {"min": 3, "max": 120, "count": 300000}))
         plans.append(("rel", ALPHABET_ENC, [1, 2, 3], {"min": 4, "max": 300, "count": 1000000}))
     complete = {}
+    done_long = set()
     shapes = 0
     for kind, alpha, lens, rnd in plans:
         b = build.build(kind)["vdriver"]
@@ -83,6 +84,25 @@ def run(tier, seed):
                 absorb(acc, rep, kind, "random len %d..%d" % (rnd["min"], rnd["max"]))
                 acc.count("random_strings_" + kind, rep["strings"])
                 shapes += rep["distinct_tree_shapes"]
+            # one very long token of each kind (digits, zeros, blanks, a word, garbage, a fraction) alone and inside an expression, with
+            # lengths around 2^8, 2^12, 2^15, 2^16 and 2^17: a length kept in a narrower integer, or saturated, loses or mis-attributes
+            # bytes only past that size (seeds C12-h, C06-h: token length stored as u16)
+            if kind not in done_long:
+                done_long.add(kind)
+                long_n = 0
+                for L in ([255, 256, 257, 4096, 65535, 65536, 65537, 70000] if kind == "dbg" else [32767, 32768, 65535, 65536, 65537, 131071, 131072, 131073, 200000]):
+                    for tok in ("7" * L, "0" * L, " " * L, "a" * L, "#" * L, "1." + "3" * L, "\u00a0" * (L // 2), "é" * (L // 2 + 1)):
+                        for s_ in (tok, "1 + " + tok + " * 2", "(2 m to " + tok + ") 5"):
+                            r = d.call({"op": "lex", "s": s_, "brief": True}, timeout=600)
+                            long_n += 1
+                            acc.evaluations += 1
+                            if "ok" not in r:
+                                what = r.get("violation") or ("panic: %s" % r.get("panic"))
+                                acc.violate(sig_of("long-token: " + str(what)), "%s [%s, one token of %d bytes]: input %r..." % (what, kind, L, s_[:40]),
+                                            {"input": s_, "build": kind, "what": what})
+                            else:
+                                acc.seen("longest_token_bytes", r["ok"]["longest_token"])
+                acc.count("inputs_with_one_very_long_token_" + kind, long_n)
             # a few concrete samples through the per-item op
             for s in ["1 + {a b}", "3 * (1 + 2) to m", "°C'x…", "1e+", "round(1.5 , 2 )"]:
                 r = d.call({"op": "lex", "s": s})
